@@ -745,6 +745,18 @@ for _m in [
      'tie_theorem': 'C11.src_remove_eq_model'},
     {'py': 'discard', 'name': 'discard', 'params': {'item': 'Key'}, 'result': 'None',
      'tie_theorem': 'C11.src_discard_eq_model'},
+    # round 3f: the index translation over the STORE (`for d_start, d_stop in self.dead_indices` reads the cells; the
+    # base-translator tie of the same method over abstract pairs stays), then `pop`
+    {'py': '_get_real_index', 'name': 'get_real_index', 'params': {'index': 'Int'}, 'result': 'Int',
+     'tie_theorem': 'C11.src_iset_get_real_index_eq_model'},
+    {'py': 'pop', 'name': 'pop', 'params': {'index': 'Option Int'}, 'result': 'Val',
+     'tie_theorem': 'C11.src_pop_eq_model'},
+    {'py': '_get_apparent_index', 'name': 'get_apparent_index', 'params': {'index': 'Int'}, 'result': 'Int',
+     'tie_theorem': 'C11.src_iset_get_apparent_index_eq_model'},
+    {'py': 'index', 'name': 'index', 'params': {'val': 'Key'}, 'result': 'Int', 'tie_theorem': 'C11.src_index_eq_model'},
+    # an INT index only (rule K1: the slice kind is outside the tie)
+    {'py': '__getitem__', 'name': 'getitem', 'params': {'index': 'Int'}, 'result': 'Val',
+     'tie_theorem': 'C11.src_getitem_eq_model'},
 ]:
     _sp = dict(_m, module='boltons.setutils', cls=INDEXED_SET, method=True, translator='py2lean_c11',
                gen_file='setutils_iset', qualname='IndexedSet.' + _m['py'], lean_name='IndexedSet.' + _m['name'],
@@ -752,7 +764,7 @@ for _m in [
     del _sp['name']
     _ISET.append(_sp)
 # only the methods whose tie theorem exists are registered (callees come before their callers)
-_ISET_TIED = ('_add_dead', '_dead_index_count', '__len__', 'add', '_compact')
+_ISET_TIED = ('_add_dead', '_dead_index_count', '__len__', 'add', '_compact', '_cull', 'remove', 'discard', '_get_real_index', 'pop', '_get_apparent_index', 'index', '__getitem__')
 _ISET = [_sp for _sp in _ISET if _sp['py'] in _ISET_TIED]
 INDEXED_SET['methods'] = _ISET
 SPECS['C11'] = SPECS['C11'] + _ISET
